@@ -81,6 +81,7 @@ class Check:
         mod = self.mod
         timeout_ms = int(os.environ.get("PYVC_TIMEOUT_MS", "20000" if self.tier == "quick" else "90000"))
         eng = Engine(SourceIndex(REPO))
+        eng.tier = self.tier          # harnesses widen their enumerations in the thorough tier (eng.tier == "thorough")
         t_sym0 = time.time()
         harnesses = mod.HARNESSES if self.tier == "thorough" or not hasattr(mod, "QUICK_HARNESSES") else mod.QUICK_HARNESSES
         for name, h in harnesses:
@@ -170,6 +171,19 @@ class Check:
                             None, "bounded stand-in on the real code", "cpython", False, known)
             if not rep.get("performed", True) or "cases" not in rep:
                 self.broken.append("bounded stand-in did not run: %s" % rep.get("note"))
+        # ---- thorough tier: validate the checker itself on this property (scripted mutants + seeded changes on scratch worktrees)
+        self.selftest = None
+        if self.tier == "thorough" and os.path.realpath(REPO) == "/repo" and not os.environ.get("PYVC_NO_SELFTEST"):
+            import subprocess
+            p = subprocess.run([sys.executable, os.path.join(VERIF, "selftest", "run.py"), self.prop, "-j", "4"], capture_output=True, text=True,
+                               env=dict(os.environ, PYVC_NO_SELFTEST="1", VERIF_TIER="quick"))
+            lines = [l for l in p.stdout.splitlines() if l.startswith(self.prop)]
+            mism = [l for l in lines if "MISMATCH" in l or "DOES-NOT-APPLY" in l or "ANCHOR-NOT" in l]
+            self.selftest = {"jobs": len(lines), "mismatches": len(mism), "mismatch_lines": mism[:10],
+                             "cmd": "selftest/run.py %s -j 4" % self.prop,
+                             "label": "mutation self-test of the checker (NOT a statement about pymoca): every property-breaking edit must be flagged, every harmless one must pass"}
+            if mism:
+                self.broken.append("mutation self-test: %d of %d scripted / seeded changes are not judged as expected: %s" % (len(mism), len(lines), "; ".join(m_[:120] for m_ in mism[:3])))
         return self.finish()
 
     def record(self, name, st, rep, model, solver_out, backend, in_baseline, known, allow_nofail=True):
@@ -243,6 +257,7 @@ class Check:
             "cover_points_reached": sorted(eng.covered),
             "samples": samples,
             "explanation": getattr(mod, "EXPLANATION", ""),
+            "selftest": getattr(self, "selftest", None),
             "known_findings_seen": [k.get("summary") for k, _ in self.known_seen],
             "undecided": self.undecided, "checker_problems": self.broken,
         }
